@@ -42,6 +42,10 @@ class Engine:
         if key in self._in_progress or any((k[0], k[1], k[3]) == (fi.qualname, clsbind, tuple(funargs)) for k in self._in_progress):
             # a recursive call: not summarised (the walker has no fixpoint); the call is treated as
             # opaque and the run settles as "definite violations, else no verdict"
+            from .calls import _structural_recursion
+
+            if _structural_recursion(fi):
+                return None  # (a traversal of nested data: modelled by calls.apply_repo)
             self.unknown_calls.setdefault(("recursive:" + fi.qualname, fi.qualname), "recursive call of %s (cycle: %s)" % (fi.qualname, " -> ".join(k[0] for k in self._in_progress) + " -> " + fi.qualname))
             return None
         self._in_progress.append(key)
